@@ -11,7 +11,7 @@ import (
 func init() {
 	register(&propInfo{
 		ID:          "C05",
-		Explanation: "Path and origin analysis of the reconnect machinery: (R05.1) the redial function declines (returns false) exactly when no dial factory is configured, and the no-reconnect option is what makes the factory nil before the connection object is built; (R05.2) inside the redial loop every path from the loop head to a dial passes a sleep on the configured back-off with an attempt counter that grows on every iteration; the method-level retry sleeps before each re-send; (R05.3) after a successful dial the new socket is installed and, on every path to the end of the goroutine, the connection-unusable flag is cleared, keepalive is re-armed on the new socket and the socket reader is restarted; (R05.4) the temporary-connection code is one constant everywhere: seeded for the typed connection error, carried by every locally synthesised failure reply, compared by the retry gate; loss signals always mark the connection unusable (so loss leads to reconnect, not to a silent exit); (R05.5) every configuration field written by an option is read again on the construction path; (R05.6) the back-off delay is clamped before it is converted to an integer duration. (R05.8) the accept arm answers every request accepted during an outage, for both id polarities. (R05.9) the code-to-type direction of an error table is written only by the registry's constructor and Register or copied from another such map. (R05.10) the WebSocket transport function fails a call by itself only behind the hand-over to the connection loop; (R05.11) the code-to-type lookup is skipped only when the table pointer is nil.",
+		Explanation: "Path and origin analysis of the reconnect machinery: (R05.1) the redial function declines (returns false) exactly when no dial factory is configured, and the no-reconnect option is what makes the factory nil before the connection object is built; (R05.2) inside the redial loop every path from the loop head to a dial passes a sleep on the configured back-off with an attempt counter that grows on every iteration; the method-level retry sleeps before each re-send; (R05.3) after a successful dial the new socket is installed and, on every path to the end of the goroutine, the connection-unusable flag is cleared, keepalive is re-armed on the new socket and the socket reader is restarted; (R05.4) the temporary-connection code is one constant everywhere: seeded for the typed connection error, carried by every locally synthesised failure reply, compared by the retry gate; loss signals always mark the connection unusable (so loss leads to reconnect, not to a silent exit); (R05.5) every configuration field written by an option is read again on the construction path; (R05.6) the back-off delay is clamped before it is converted to an integer duration. (R05.8) the accept arm answers every request accepted during an outage, for both id polarities. (R05.9) the code-to-type direction of an error table is written only by the registry's constructor and Register or copied from another such map. (R05.10) the WebSocket transport function fails a call by itself only behind the hand-over to the connection loop; (R05.11) the code-to-type lookup is skipped only when the table pointer is nil. (R05.12) a reported connection error of whatever kind leads to the redial function; (R05.13) a deadline on the dial is created per dial.",
 		NotDecided:  "That the link actually heals, back-off durations themselves, real outage shapes.",
 		Assumptions: []string{"NewErrors and RPCConnectionError are resolved by exported name", "a float that is not bounded by a dominating comparison may exceed the int64 range"},
 		Run:         runC05,
@@ -399,6 +399,10 @@ func runC05(c *Ctx) {
 	c.registryInstalledAsGiven("R05.9")
 	c.rule("R05.10", "a call issued during an outage goes through the connection loop (whose answer carries the temporary-error code the retry gate tests): the transport function does not fail a call by itself before handing it over, except for the caller's own context")
 	c.handOverBeforeFailing("R05.10")
+	c.ruleOpt("R05.13", "every redial gets a fresh chance: a deadline on the dial is created per dial, inside the dial function")
+	c.dialDeadlinePerDial("R05.13")
+	c.rule("R05.12", "whenever the socket reader reported the end of the connection together with an error — whatever kind of error, a close frame included — the loop goes through the redial function before it can return (only the error-free end, set aside for a connection this side closed, exits)")
+	c.lossLeadsToRedial("R05.12")
 	c.rule("R05.11", "with an error table installed the reply's code is always looked up in its code-to-type direction (where the built-in connection error lives): the lookup is not skipped by a test of anything but the table pointer itself")
 	c.codeLookupNotGated("R05.11")
 	c.rule("R05.7", "every completion delivered to an id-bearing call carries that call's id")
@@ -900,5 +904,57 @@ func (c *Ctx) codeLookupNotGated(rule string) {
 		c.bad(rule, construct, c.ipos(bad), "a return is reachable with the error table present but without the code having been looked up in its code-to-type direction (e.g. a fast path for \"no types registered\"): the built-in entry for the connection error lives only there, so calls failing during an outage yield the generic error instead of *RPCConnectionError")
 	} else {
 		c.ok(rule, construct, p.pos(val.Pos()), "every return with a table present lies behind the lookup")
+	}
+}
+
+// lossLeadsToRedial: R05.12. In the loop's socket-message arm no return is reachable without passing a
+// call of the redial function, except along the edge on which an error value was found nil. A test of
+// the *kind* of error (websocket.IsCloseError(err, 1000, 1001): "the peer closed regularly") beside it
+// makes a reconnecting client give up for good when a server restarts gracefully.
+func (c *Ctx) lossLeadsToRedial(rule string) {
+	r := c.R
+	w := c.ws()
+	arm, ok := w.Arms["incoming"]
+	if !ok || arm.Body == nil || r.FnRedial == nil || r.FnLoop == nil {
+		c.und(rule, "socket-message arm / redial function", "-", "not resolved")
+		return
+	}
+	edgeOK := func(b *ssa.BasicBlock, succ int) bool {
+		iff, ok := b.Instrs[len(b.Instrs)-1].(*ssa.If)
+		if !ok {
+			return true
+		}
+		bo, ok := iff.Cond.(*ssa.BinOp)
+		if !ok || (bo.Op != token.EQL && bo.Op != token.NEQ) {
+			return true
+		}
+		other := bo.X
+		if isNilConst(bo.X) {
+			other = bo.Y
+		} else if !isNilConst(bo.Y) {
+			return true
+		}
+		if !isErrorType(other.Type()) {
+			return true
+		}
+		nilEdge := 0
+		if bo.Op == token.NEQ {
+			nilEdge = 1
+		}
+		return succ != nilEdge
+	}
+	blocks := armBlocks(arm)
+	s := newIPSearch(func(in ssa.Instruction) bool {
+		ret, ok := in.(*ssa.Return)
+		return ok && ret.Parent() == r.FnLoop
+	}, func(in ssa.Instruction) bool {
+		return isCallTo(in, r.FnRedial) || (in.Parent() == r.FnLoop && !inRegion(blocks, in))
+	})
+	s.edgeOK = edgeOK
+	construct := fmt.Sprintf("%s: a reported connection error leads to the redial function", fname(r.FnLoop))
+	if s.scan(arm.Body, 0, nil) {
+		c.bad(rule, construct, c.ipos(s.found), "the loop can return from its socket-message arm although the reader reported an error, without having asked the redial function (e.g. a regular close frame taken for 'remote closed'): a reconnecting client whose server restarts gracefully never redials — every later call fails with 'routine exiting'")
+	} else {
+		c.ok(rule, construct, c.ipos(arm.Body.Instrs[0]), "every return in the arm lies behind the redial call or on the error-free edge")
 	}
 }
